@@ -30,6 +30,8 @@ class _Raise(Exception):
 def value(e, env):
     if isinstance(e, ast.Constant):
         return e.value
+    if isinstance(e, ast.Call) and unparse(e) in env:
+        return env[unparse(e)]  # an abstract predicate supplied by the caller (isinstance(x, T), np.isscalar(x), ...)
     if isinstance(e, (ast.Name, ast.Attribute)):
         k = unparse(e)
         if k in env:
